@@ -1,6 +1,10 @@
 package yqlib
 
-import yaml "gopkg.in/yaml.v3"
+import (
+	"math"
+
+	yaml "gopkg.in/yaml.v3"
+)
 
 // C15 — sort, min/max and the comparison operators agree on one consistent total order.
 
@@ -560,3 +564,97 @@ func VerifC15SortKeysSameSpelling() {
 	verifCover("C15/sortkeys-same-spelling/end")
 }
 
+
+// c15ExactCmpIntFloat: the exact numeric order of an int64 and a finite float64 (no rounding anywhere: the float is
+// split into its integral part, which fits an int64 whenever the float lies inside the int64 range, and the rest).
+func c15ExactCmpIntFloat(i int64, f float64) int {
+	if f >= 9223372036854775808.0 {
+		return -1
+	}
+	if f < -9223372036854775808.0 {
+		return 1
+	}
+	t := int64(f) // truncation toward zero, exact inside the range
+	if i < t {
+		return -1
+	}
+	if i > t {
+		return 1
+	}
+	rest := f - float64(t) // exact: |rest| < 1 and representable
+	if rest > 0 {
+		return -1
+	}
+	if rest < 0 {
+		return 1
+	}
+	return 0
+}
+
+type c15Num struct {
+	node  *CandidateNode
+	isInt bool
+	i     int64
+	f     float64
+}
+
+func c15Number(name string, isInt bool) c15Num {
+	if isInt {
+		i := verifInt64(name)
+		return c15Num{node: &CandidateNode{Kind: ScalarNode, Tag: "!!int", Value: verifItoa(i)}, isInt: true, i: i}
+	}
+	f := math.Float64frombits(uint64(verifInt64(name)))
+	verifAssume(!math.IsNaN(f) && !math.IsInf(f, 0))
+	return c15Num{node: &CandidateNode{Kind: ScalarNode, Tag: "!!float", Value: verifFtoa(f)}, f: f}
+}
+
+func c15ExactCmp(a, b c15Num) int {
+	switch {
+	case a.isInt && b.isInt:
+		if a.i < b.i {
+			return -1
+		} else if a.i > b.i {
+			return 1
+		}
+		return 0
+	case a.isInt:
+		return c15ExactCmpIntFloat(a.i, b.f)
+	case b.isInt:
+		return -c15ExactCmpIntFloat(b.i, a.f)
+	}
+	if a.f < b.f {
+		return -1
+	} else if a.f > b.f {
+		return 1
+	}
+	return 0
+}
+
+func c15Sign(c int) int {
+	if c < 0 {
+		return -1
+	} else if c > 0 {
+		return 1
+	}
+	return 0
+}
+
+// VerifC15IntFloat: "numbers by numeric value whatever their spelling" for every 64-bit integer against every finite
+// float64 (both solver variables; the float is the float-format text of an arbitrary bit pattern): the sort
+// comparator is antisymmetric, agrees with the exact numeric order, and `<` / `>=` agree with it.
+func VerifC15IntFloat() {
+	kinds := verifChoice("kinds", 3) // int-float, float-int, float-float
+	a := c15Number("a", kinds == 0)
+	b := c15Number("b", kinds == 1)
+	label := []string{"int-float", "float-int", "float-float"}[kinds]
+	cab := c15Sign(sortableNodeArray(nil).compare(a.node, b.node, vRFC3339))
+	cba := c15Sign(sortableNodeArray(nil).compare(b.node, a.node, vRFC3339))
+	verifAssert(cab == -cba, "C15/antisymmetric number-spellings "+label)
+	want := c15ExactCmp(a, b)
+	verifAssert(cab == want, "C15/agrees-numeric number-spellings "+label)
+	lt, err := compareScalars(Context{}, compareTypePref{OrEqual: false, Greater: false}, a.node, b.node)
+	verifAssert(err == nil && lt == (want < 0), "C15/less-than-disagrees-with-numeric-order "+label)
+	ge, err := compareScalars(Context{}, compareTypePref{OrEqual: true, Greater: true}, a.node, b.node)
+	verifAssert(err == nil && ge == (want >= 0), "C15/greater-or-equal-disagrees-with-numeric-order "+label)
+	verifCover("C15/intfloat/end")
+}
